@@ -578,6 +578,30 @@ func c09Redecorate(c *Ctx) {
 		})
 		return out
 	}
+	// a file built by hand: the import path literal carries its text only (no Kind), as hand-built
+	// literals often do; printers and type-checkers read the text, and so must the resolver
+	{
+		key := "redecorate-restored-ast|hand-built-import"
+		c.Eval(key, true)
+		hf := &dst.File{Name: dst.NewIdent("p"), Decls: []dst.Decl{
+			&dst.GenDecl{Tok: token.IMPORT, Specs: []dst.Spec{&dst.ImportSpec{Path: &dst.BasicLit{Value: "\"example.com/one\""}}}},
+			&dst.GenDecl{Tok: token.VAR, Specs: []dst.Spec{&dst.ValueSpec{Names: []*dst.Ident{dst.NewIdent("a")}, Values: []dst.Expr{&dst.SelectorExpr{X: dst.NewIdent("one"), Sel: dst.NewIdent("V")}}}}},
+		}}
+		r := decorator.NewRestorer()
+		af, err := r.RestoreFile(hf)
+		if err != nil {
+			c.Infra("hand-built file does not restore: " + err.Error())
+			return
+		}
+		var f2 *dst.File
+		var derr error
+		d := decorator.NewDecoratorWithImports(r.Fset, "example.com/p", goast.WithResolver(simple.New(names)))
+		if msg := guard(func() { f2, derr = d.DecorateFile(af) }); msg != "" || derr != nil {
+			c.Fail(Finding{Sig: "redecorate-fails", Input: key, What: fmt.Sprintf("%s %v", msg, derr), Replay: obj{"kind": "none"}})
+		} else if got := pathsOf(f2); strings.Join(got, " ") != "V@example.com/one" {
+			c.Fail(Finding{Sig: "redecorate-paths-differ", Input: key, What: fmt.Sprintf("a hand-built file importing example.com/one and using one.V, restored and decorated: %v", got), Replay: obj{"kind": "none"}})
+		}
+	}
 	var keys []string
 	for k := range srcs {
 		keys = append(keys, k)
